@@ -9,6 +9,8 @@ from .iter_rules import *
 
 def run(chk, ctx):
     P = Prog(ctx["facts"])
+    from . import eqrules
+    eqrules.require(chk, P, ["Signal"], "`output.signal == signal` identifies the signal (name, width and direction all equal)")
     chk.explanation = ("C04 decided structurally: TAB (variables shadow outputs in EvalContext::get; Expr::Variable yields Ok only for Value), WHO (who writes / refreshes the outputs map: the constructor literal and set_outputs, "
                        "called only from new_with_outputs and handle_io's read branch; set_outputs replaces the map by exactly its argument), ORD (in handle_io the write branch refreshes nothing; in next() the row is evaluated by get_row strictly before its own IO and nothing is evaluated afterwards outside handle_io; "
                        "in try_new build_output_indices lies on every Ok path with its error propagated and rejects iff a read output is missing from the first answer).")
@@ -60,6 +62,11 @@ def run(chk, ctx):
                     if nm == TD + "build_output_indices":
                         chk.require(ordrules.propagated(pi, tn, bb), "ORD", "ORD:try_new:missing-output-error-propagated", "build_output_indices(..)?", "the result of build_output_indices is not propagated")
         chk.floor("ORD", "Ok paths of try_new", n, 1)
+        seqs = set()
+        for pi in tab.paths(P, tn, to_return_only=True):
+            seqs.add((ordrules.ret_shape(pi), tuple(nm.split("::")[-1] for bb, nm, a in pi.calls() if nm in P.f.bodies or nm in DRIVER)))
+        full = ("new", "generate_default_input_entries", "write_input_and_read_output", "build_output_indices", "new_with_outputs")
+        chk.require(seqs == {("Ok", full), ("Err", full[:4]), ("Err", full[:3])}, "ORD", "ORD:try_new:exact-call-sequence", "constructor does exactly: new, default vector, read-call, layout check, context — nothing is evaluated or prefetched", "try_new call sequences: %s" % sorted(seqs, key=str))
         for bb, t in tn.calls():
             if callee_name(t)[0] == EC + "new_with_outputs":
                 a = [canon(x) for x in P.call_arg_terms(tn, bb)]
@@ -72,6 +79,27 @@ def run(chk, ctx):
             if emp:
                 shapes.add((emp[-1], ordrules.ret_shape(pi)))
         chk.require(shapes == {(True, "Ok"), (False, "Err")}, "GUARD", "GUARD:build_output_indices:missing-read-output-is-error", "Err iff some read output is not among the found outputs", "build_output_indices: (missing.is_empty(), result) = %s" % sorted(shapes, key=str))
+        pt = tab.predicate_table(P, boi)
+        MS = "Vec::is_empty(Iterator::collect(Iterator::filter_map([T]::iter(read_outputs), closure({closure#1}))))"
+        NXE = "variant(Iterator::next(IntoIterator::into_iter([T]::iter(self.expected_indices))))"
+        chk.require(pt == {(frozenset([(MS, False), (NXE, ("None",))]), "Err"), (frozenset([(MS, True), (NXE, ("None",))]), "Ok")}, "TAB", "TAB:build_output_indices:exact-outcome",
+                    "after the full scan: Err(MissingOutputs) iff some read output was not found among the driver's outputs", "build_output_indices decides %s" % sorted(pt, key=str))
+        # found_outputs gets the signal index exactly when the entry is Output(_)
+        pushf = [bb for bb, t in boi.calls() if callee_name(t)[0] == "std::vec::Vec::push" and not canon(P.call_arg_terms(boi, bb)[0]).startswith("Vec::with_capacity")]
+        nextb = [bb for bb, t in boi.calls() if callee_name(t)[0] == "<std::slice::Iter<T> as std::iter::Iterator>::next"]
+        if chk.anchor("found_outputs push", len(pushf) == 1 and len(nextb) == 1):
+            rows = set()
+            for pi in tab.paths(P, boi, start=nextb[0]):
+                if pi.back is None:
+                    continue
+                pushed = [canon(a[1]) for bb, nm, a in pi.calls() if bb == pushf[0]]
+                kinds = [canon(a[1]) for bb, nm, a in pi.calls() if nm == "std::vec::Vec::push" and bb != pushf[0]]
+                kind = re.sub(r"\{.*", "", kinds[0]).split("::")[-1] if kinds else None
+                rows.add((kind, tuple(pushed)))
+            SI = "EntryIndex::signal_index(some!(Iterator::next(IntoIterator::into_iter([T]::iter(self.expected_indices)))))"
+            want = {("Virtual", ()), ("None", ()), ("Output", (SI,))}
+            got = rows
+            chk.require(got == want, "GUARD", "GUARD:build_output_indices:found-iff-Output", "found_outputs.push(signal_index) exactly when the entry is Output(_)", "per-iteration (entry kind, found_outputs pushes): %s" % sorted(rows, key=str))
         for cl in P.f.closures_of(boi.name):
             pt = tab.predicate_table(P, cl)
             if any("contains" in f for fs, sh in pt for f, t in fs):
